@@ -45,6 +45,11 @@ def _ops(cfg: HubConfig, info) -> List[Tuple[str, List[List]]]:
                 out.append((f"resume({s},T1)", a.ctl(s, P.MT_RESUME_SUBSCRIPTION, T1)))
                 if s in ("A", "B"):
                     out.append((f"unsub({s},T2)", a.ctl(s, P.MT_UNSUBSCRIBE, T2)))  # never subscribed
+                    # requests (changing nothing) whose header carries destination fields no data frame could be routed with: a
+                    # request is answered whatever its header says about a destination
+                    for mt, nm in ((P.MT_UNSUBSCRIBE, "unsub"),):
+                        for dm, dh in ((P.MAX_MODULES + 1, 0), (0, P.MAX_HOSTS + 1), (-7, -7)) if s == "A" else ((-1, 0),):
+                            out.append((f"{nm}({s},T2;dest={dm}/{dh})", [hub.ev_send(s, hub.frame(tc, mt, P.p_sub(T2), src_mod_id=mid, dest_mod_id=dm, dest_host_id=dh))]))
                     # same pid / name as at connect time: requests that change nothing
                     out.append((f"ready({s})", [hub.ev_send(s, hub.frame(tc, P.MT_MODULE_READY, P.P_READY.pack(4000 + mid if s == "A" else 0), src_mod_id=mid))]))
                     out.append((f"setname({s})", [hub.ev_send(s, hub.frame(tc, P.MT_CLIENT_SET_NAME, P.P_NAME.pack(s.encode() if s == "A" else b""), src_mod_id=mid))]))
